@@ -148,7 +148,7 @@ static std::string pathRecord(State &S, std::map<std::string, int> &setTable, st
   else o += "\"any\"";
   o += ",\"alarms\":[";
   for (size_t i = 0; i < S.alarms.size(); i++) { auto &a = S.alarms[i]; if (i) o += ","; o += "{\"kind\":" + jstr(a.kind) + ",\"fn\":" + jstr(a.fn) + ",\"line\":" + std::to_string(a.line) + ",\"msg\":" + jstr(a.msg) + "}"; }
-  o += "],\"nW\":" + std::to_string(S.nW) + ",\"nR\":" + std::to_string(S.nR) + ",\"nIdx\":" + std::to_string(S.nIdx) + ",\"steps\":" + std::to_string(S.steps);
+  o += "],\"nW\":" + std::to_string(S.nW) + ",\"nR\":" + std::to_string(S.nR) + ",\"nIdx\":" + std::to_string(S.nIdx) + ",\"steps\":" + std::to_string(S.steps) + ",\"wrote\":" + (S.wroteReport ? "true" : "false");
   o += ",\"events\":[";
   for (size_t i = 0; i < S.events.size(); i++) { if (i) o += ","; o += S.events[i]; }
   o += "]";
